@@ -538,6 +538,18 @@ func c02Load(tc *c02Case, allowExternal bool) *c02Loaded {
 		loader.LoadFromFile(filepath.Join(lone, "r", "openapi.json"))
 		res.reads = []any{}
 		res.doc, res.err = loader.LoadFromFile(rootPath)
+	case "file_abs_prior":
+		// earlier uses of the Loader: every other file of the universe, loaded as a root document of its own
+		seen := map[string]bool{}
+		for _, f := range tc.Files {
+			if f.File == "r/openapi.json" || seen[f.File] || strings.Contains(f.File, "://") {
+				continue
+			}
+			seen[f.File] = true
+			guard(func() { loader.LoadFromFile(filepath.Join(dir, filepath.FromSlash(f.File))) })
+		}
+		res.reads = []any{}
+		res.doc, res.err = loader.LoadFromFile(rootPath)
 	case "file_rel", "file_rel_default":
 		wd, _ := os.Getwd()
 		os.Chdir(dir)
